@@ -14,11 +14,16 @@ Tie to the current source, every run:
   (b) the same outputs vs the SPEC oracle (exact interval intersection in Rat,
       written independently of the model): hit booleans, entry/exit/ip when hit;
   (c) float guard sweep (residue, measured): direction components in
-      {0, +-denorm_min, +-1e-30, +-1, +-1e30, +-max/2}, origins below/on/inside/on/above
-      each slab, ordinary / off-centre / half-infinite / infinite / flat / huge boxes;
-      the implementation's hit/miss must equal the exact rational answer whenever
-      that answer is ROBUST (the same on the box eroded and dilated per axis by
-      eta*max(|min|,|max|,|pos|), eta = 1e-9 double / 1e-4 float)."""
+      {0, +-1, +-denorm_min, +-1e-30, +-1e30, +-max/2}, origins below/on/inside/on/above
+      each slab; blocks: FIRST the deterministic ones (fixed ordinary box, half-infinite box with a
+      face at numeric_limits::max, box/origin at opposite extremes so that face-pos overflows,
+      off-centre box, Box::makeInfinite), then VERIF_SEED-dependent ones (ordinary, half-infinite;
+      thorough: off-centre scaled, flat, huge).  The implementation's hit/miss must equal the exact
+      rational answer whenever that answer is ROBUST (the same on the box eroded and dilated per axis
+      by eta*max(|min|,|max|,|pos|), eta = 1e-9 double / 1e-4 float).  Every flip is classified by
+      function, direction and CAUSE (all-components-fail-guard | box-face-at-TMAX |
+      face-minus-pos-overflows | other-*) and reported under the key guard-sweep:<class>; the
+      canonical witness of a class is its first flip in block order (deterministic blocks first)."""
 import os, re, math
 import lib
 
@@ -203,6 +208,10 @@ def run_sweep(chk, binary):
         chk.count(2 * stats["cases"], stats.get("robustLine", 0) + stats.get("robustRay", 0))
         chk.residues["guard_sweep_" + name] = dict(stats, flips=counts, eta=("1e-9" if ft == "d" else "1e-4"),
                                                    bound="0 flips of a robust exact answer")
+        chk.extra.setdefault("guard_sweep_flip_counts", {})[name] = counts
+        chk.extra.setdefault("guard_branch_hits", {})[name] = {
+            k: stats.get(k, 0) for k in ("guardFailAxes", "casesWithGuardFail", "feGuardInside", "feGuardOutside",
+                                         "isFrontSubst", "isBackSkip")}
         for ob in SWEEP_OBLIGS:
             n = sum(v for k, v in counts.items() if k.startswith(ob + ":") or k == ob)
             chk.oblige("sweep:%s:%s:never" % (name, ob), "residue", n == 0, None if n == 0 else {"flips": n})
